@@ -125,7 +125,7 @@ func (ex *Exec) callFunc1(f *ssa.Function, args, freeVars []Term, cc *ssa.CallCo
 	}
 	c := ex.P.contracts.get(key)
 	li := ex.P.loops(f)
-	if ex.root.contract != nil && len(f.Blocks) > 0 && !ex.onStack(f) && ex.depth < maxInlineDepth {
+	if ex.root != nil && ex.root.contract != nil && len(f.Blocks) > 0 && !ex.onStack(f) && ex.depth < maxInlineDepth {
 		for _, u := range ex.root.contract.Unfold {
 			if strings.HasSuffix(key, u) {
 				return ex.inline(f, args, freeVars, h, reach, at)
@@ -134,6 +134,10 @@ func (ex *Exec) callFunc1(f *ssa.Function, args, freeVars []Term, cc *ssa.CallCo
 	}
 	if c != nil && !c.Inline {
 		return ex.contractCall(f, c, args, h, reach, at)
+	}
+	if strings.HasSuffix(ex.P.fset.Position(f.Pos()).Filename, "_string.go") {
+		// generated stringer methods: table lookups guarded by their own range check; result is an arbitrary string
+		return ex.havocResults(f.Signature, reach)
 	}
 	inlinable := len(f.Blocks) > 0 && !li.hasLoops() && ex.depth < maxInlineDepth && !ex.onStack(f) && ex.P.inRepo(f) && f.Recover == nil &&
 		((c != nil && c.Inline) || smallEnough(f))
@@ -209,7 +213,7 @@ func (ex *Exec) contractCall(f *ssa.Function, c *Contract, args []Term, h *Heap,
 		vars[pnames[i]+"0"] = SV{args[i], ptypes[i]}
 	}
 	pre := h.clone()
-	cx := &Exec{q: q, P: ex.P, fn: f, vals: map[ssa.Value]Term{}, locs: map[ssa.Value]*Loc{}, params: args, entryHeap: pre, stack: ex.stack, depth: ex.depth, counters: ex.counters}
+	cx := &Exec{q: q, P: ex.P, fn: f, vals: map[ssa.Value]Term{}, locs: map[ssa.Value]*Loc{}, params: args, entryHeap: pre, stack: ex.stack, depth: ex.depth, counters: ex.counters, root: ex.root, witness: map[string]SV{}}
 	for i, p := range f.Params {
 		cx.vals[p] = args[i]
 	}
@@ -233,7 +237,7 @@ func (ex *Exec) contractCall(f *ssa.Function, c *Contract, args []Term, h *Heap,
 	if c.HasMod {
 		effs = ex.P.contractEffects(q.so, f, c)
 		for i := range effs {
-			if effs[i].param >= 0 {
+			if effs[i].param >= 0 && !effs[i].all {
 				effs[i].base = paramValue{effs[i].param}
 				cx.vals[effs[i].base] = args[effs[i].param]
 			}
@@ -241,7 +245,7 @@ func (ex *Exec) contractCall(f *ssa.Function, c *Contract, args []Term, h *Heap,
 	} else if !c.Assumed && len(f.Blocks) > 0 {
 		effs = ex.P.funcEffects(q.so, f, map[*ssa.Function]bool{})
 		for i := range effs {
-			if effs[i].param >= 0 {
+			if effs[i].param >= 0 && !effs[i].all {
 				effs[i].base = f.Params[effs[i].param]
 			}
 		}
